@@ -162,6 +162,21 @@ func c15R2(c *Ctx) {
 						okEq = true
 					}
 				}
+				if !okEq {
+					// … or the cache was just filled for the requested width on the way here
+					pairs, lone := cachePairsVia(P, r, m.pkg, m.inner)
+					good, storing := map[*ssa.BasicBlock]bool{}, map[*ssa.BasicBlock]bool{}
+					for _, p := range pairs {
+						storing[p.text.Block()] = true
+						if p.wrapOK && p.same && unwrapLoad(p.w) == ssa.Value(width) {
+							good[p.text.Block()] = true
+						}
+					}
+					for _, st := range lone {
+						storing[st.Block()] = true
+					}
+					okEq, _ = cachedReturnOnPaths(P, r, b, isField, width, storing, good)
+				}
 				// no store to cached between the test and the load in this block path
 				c.check(okEq, rname+"/return:cached", P.InstrPos(ret), rname, "the cached text is returned only when cachedWidth == width", "the cached rendering is returned for a width it was not rendered at")
 				continue
@@ -316,6 +331,30 @@ func c15R3(c *Ctx) {
 		}
 		var hidden []string
 		for f := range reach {
+			// the clock, the environment and random numbers are inputs too
+			eachInstr(f, func(_ *ssa.BasicBlock, _ int, in ssa.Instruction) {
+				cc := callOf(in)
+				if cc == nil {
+					return
+				}
+				fo := calleeObj(cc)
+				if fo == nil || fo.Pkg() == nil {
+					return
+				}
+				switch fo.Pkg().Path() {
+				case "time":
+					if fo.Name() == "Now" || fo.Name() == "Since" || fo.Name() == "Until" {
+						hidden = append(hidden, "the clock (time."+fo.Name()+") at "+P.InstrPos(in))
+					}
+				case "math/rand", "math/rand/v2", "crypto/rand":
+					hidden = append(hidden, "a random source ("+fo.Pkg().Name()+"."+fo.Name()+") at "+P.InstrPos(in))
+				case "os":
+					switch fo.Name() {
+					case "Getenv", "LookupEnv", "Environ", "Hostname", "Getwd", "ReadFile", "Open", "Stat":
+						hidden = append(hidden, "the environment (os."+fo.Name()+") at "+P.InstrPos(in))
+					}
+				}
+			})
 			eachInstr(f, func(_ *ssa.BasicBlock, _ int, in ssa.Instruction) {
 				u, ok := in.(*ssa.UnOp)
 				if !ok || u.Op != token.MUL {
@@ -343,6 +382,6 @@ func c15R3(c *Ctx) {
 		sort.Strings(hidden)
 		c.check(len(hidden) == 0, fname+"/no-hidden-input", P.Pos(fn.Pos()), fname,
 			"reads no package-level state besides the immutable configuration and compiled regexps",
-			"rendering reads mutable package-level state: "+strings.Join(hidden, "; "))
+			"rendering has inputs besides the document and the width: "+strings.Join(hidden, "; "))
 	}
 }
